@@ -13,7 +13,9 @@ from ..geom import frac, liang_barsky, point_at, sq_dist, sq_dist_point_segment
 
 PROPERTY = "C08"
 REL_TOL = F(1, 10 ** 9)
-MAX_CODE_CALLS = 10         # 5 loop passes x 2 endpoints (4 clips + failsafe pass)
+# (an earlier version also required "at most 5 loop passes", counted through clip_code calls; that
+# is how the current implementation terminates, not what the property states - a behaviour-
+# preserving recursive rewrite tripped it, so only the generous non-termination budget remains)
 
 
 class LoopBudget(Exception):
@@ -70,8 +72,6 @@ def check_case(seg, rect, as_tuples=False):
     except Exception as exc:                # pylint: disable=broad-except
         return [("raise", f"{desc} raised {type(exc).__name__}: {exc}")]
     out = []
-    if calls > MAX_CODE_CALLS:
-        out.append(("loop", f"{desc} needed {calls // 2} loop passes (at most 5 expected)"))
     exact = liang_barsky(fseg, frect)
     inside_len2 = F(0)
     if exact is not None:
